@@ -545,9 +545,9 @@ theorem resourceName_improper (fs : Fs) (v : View) (slash : Bool) (segs : List S
 
 /-- the candidate list in terms of the OS path of the target -/
 def candsAt (fs : Fs) (v : View) (target : Text) : List Cand :=
-  (if fs.isThere target then [⟨target, none⟩] else []) ++
+  (if fs.isRegular target then [⟨target, none⟩] else []) ++
   v.encs.flatMap fun (e, exts) =>
-    exts.filterMap fun ext => if fs.isThere (target ++ ext) then some ⟨target ++ ext, some e⟩ else none
+    exts.filterMap fun ext => if fs.isRegular (target ++ ext) then some ⟨target ++ ext, some e⟩ else none
 
 theorem candidates_nameOf (fs : Fs) (v : View) (hw : WfView v) (comps : List Seg) (hne : comps ≠ [])
     (h : ∀ c ∈ comps, c ≠ [] ∧ '/' ∉ c) :
@@ -555,7 +555,7 @@ theorem candidates_nameOf (fs : Fs) (v : View) (hw : WfView v) (comps : List Seg
   unfold candidates candsAt findResourcePath
   rw [osPath_nameOf v hw comps hne h]
   congr 1
-  · by_cases ht : fs.isThere (below (rootOf v) comps) = true <;> simp [ht]
+  · by_cases ht : fs.isRegular (below (rootOf v) comps) = true <;> simp [ht]
   · apply flatMap_congr'
     intro ⟨e, exts⟩ he
     apply filterMap_congr'
@@ -576,11 +576,11 @@ theorem candidates_nameOf (fs : Fs) (v : View) (hw : WfView v) (comps : List Seg
           subst m
           exact ⟨by simp [hl.1], by simp [hl.2, hext]⟩
     simp only [hpath]
-    by_cases ht : fs.isThere (below (rootOf v) comps ++ ext) = true <;> simp [ht]
+    by_cases ht : fs.isRegular (below (rootOf v) comps ++ ext) = true <;> simp [ht]
 
 theorem mem_candsAt (fs : Fs) (v : View) (target : Text) (c : Cand) (h : c ∈ candsAt fs v target) :
-    (c.path = target ∧ c.enc = none ∧ fs.isThere target = true) ∨
-    ∃ e ∈ v.encs, ∃ x ∈ e.2, c.path = target ++ x ∧ c.enc = some e.1 ∧ fs.isThere (target ++ x) = true := by
+    (c.path = target ∧ c.enc = none ∧ fs.isRegular target = true) ∨
+    ∃ e ∈ v.encs, ∃ x ∈ e.2, c.path = target ++ x ∧ c.enc = some e.1 ∧ fs.isRegular (target ++ x) = true := by
   unfold candsAt at h
   rcases List.mem_append.mp h with m | m
   · left
@@ -829,41 +829,34 @@ theorem staticView_under (fs : Fs) (v : View) (hw : WfView v) (hr : RootIsDir fs
 
 /-! ### model = spec -/
 
-theorem candsAt_eq_specCands (fs : Fs) (v : View) (target : Text)
-    (h : ∀ p, (p = target ∨ ∃ e ∈ v.encs, ∃ x ∈ e.2, p = target ++ x) → fs.isThere p = true → fs.isDir p = false) :
-    candsAt fs v target = specCands fs v target := by
-  unfold candsAt specCands isFile
-  congr 1
-  · by_cases ht : fs.isThere target = true
-    · simp [ht, h target (.inl rfl) ht]
-    · simp [ht]
-  · apply flatMap_congr'
-    intro ⟨e, exts⟩ he
-    apply filterMap_congr'
-    intro x hx
-    by_cases ht : fs.isThere (target ++ x) = true
-    · simp [ht, h (target ++ x) (.inr ⟨(e, exts), he, x, hx, rfl⟩) ht]
-    · simp [ht]
+theorem candsAt_eq_specCands (fs : Fs) (v : View) (target : Text) :
+    candsAt fs v target = specCands fs v target := rfl
 
-theorem chooseAt_eq_specChoose (fs : Fs) (v : View) (ae : Option (List Enc)) (target : Text)
-    (h : ∀ p, (p = target ∨ ∃ e ∈ v.encs, ∃ x ∈ e.2, p = target ++ x) → fs.isThere p = true → fs.isDir p = false) :
+/-- a candidate is a regular file, so `open()` never meets a directory -/
+theorem candsAt_not_dir (fs : Fs) (v : View) (target : Text) (c : Cand) (h : c ∈ candsAt fs v target) :
+    fs.isDir c.path = false := by
+  have key : ∀ p, fs.isRegular p = true → fs.isDir p = false := by
+    intro p hp
+    simp only [Fs.isRegular, Bool.and_eq_true, Bool.not_eq_true'] at hp
+    exact hp.2
+  rcases mem_candsAt fs v target c h with ⟨e, _, t⟩ | ⟨e, he, x, hx, ep, _, t⟩
+  · rw [e]; exact key _ t
+  · rw [ep]; exact key _ t
+
+theorem chooseAt_eq_specChoose (fs : Fs) (v : View) (ae : Option (List Enc)) (target : Text) :
     chooseAt fs v ae target = specChoose fs v ae target := by
   unfold chooseAt specChoose
   simp only
-  rw [← candsAt_eq_specCands fs v target h]
+  rw [← candsAt_eq_specCands fs v target]
   cases hf : (sortBySize fs.size (candsAt fs v target)).find? (accepts ae) with
   | none => rfl
   | some c =>
     have hm : c ∈ candsAt fs v target := (mem_sortBySize _ _ _).mp (List.mem_of_find?_eq_some hf)
-    have hd : fs.isDir c.path = false := by
-      rcases mem_candsAt fs v target c hm with ⟨e, _, t⟩ | ⟨e, he, x, hx, ep, _, t⟩
-      · rw [e]; exact h target (.inl rfl) t
-      · rw [ep]; exact h _ (.inr ⟨e, he, x, hx, rfl⟩) t
-    simp [hd]
+    simp [candsAt_not_dir fs v target c hm]
 
 /-- the model of the view is the declarative spec, on every tuple -/
 theorem staticView_eq_specView (fs : Fs) (v : View) (hw : WfView v) (hr : RootIsDir fs v)
-    (hnd : NoDirCandidates fs v) (ae : Option (List Enc)) (slash : Bool) (segs : List Seg) :
+    (ae : Option (List Enc)) (slash : Bool) (segs : List Seg) :
     staticView fs v ae slash segs = specView fs v ae slash segs := by
   by_cases hs : ∀ s ∈ segs, Proper s
   · have hall : (segs.all fun s => decide (Proper s)) = true := by
@@ -880,16 +873,10 @@ theorem staticView_eq_specView (fs : Fs) (v : View) (hw : WfView v) (hr : RootIs
         have e : below (rootOf v) (segs ++ [v.index]) = below (rootOf v) segs ++ '/' :: v.index := by
           simp [below, List.flatMap_append]
         rw [e]
-        apply chooseAt_eq_specChoose
-        rintro p (rfl | ⟨e, he, x, hx, rfl⟩) _
-        · exact hnd.2 _ hd
-        · exact hnd.1 _ e he x hx
+        exact chooseAt_eq_specChoose fs v ae _
     | false =>
       simp only [Bool.false_eq_true, if_false]
-      apply chooseAt_eq_specChoose
-      rintro p (rfl | ⟨e, he, x, hx, rfl⟩) _
-      · exact hd
-      · exact hnd.1 _ e he x hx
+      exact chooseAt_eq_specChoose fs v ae _
   · have hex : ∃ s ∈ segs, ¬ Proper s := by
       apply Classical.byContradiction
       intro hn
@@ -963,5 +950,68 @@ theorem specView_cases (fs : Fs) (v : View) (ae : Option (List Enc)) (slash : Bo
       · exact .inl h
       · exact .inr (.inr h)
   · exact .inl rfl
+
+/-- what `find_resource_path` returns is a regular file -/
+theorem findResourcePath_regular (fs : Fs) (v : View) (n p : Text) (h : findResourcePath fs v n = some p) :
+    fs.isRegular p = true := by
+  unfold findResourcePath at h
+  split at h
+  · rename_i hr; simp only [Option.some.injEq] at h; subst h; exact hr
+  · simp at h
+
+theorem candidates_regular (fs : Fs) (v : View) (n : Text) (c : Cand) (h : c ∈ candidates fs v n) :
+    fs.isRegular c.path = true := by
+  rcases mem_candidates fs v n c h with ⟨_, h1⟩ | ⟨_, _, _, _, _, _, h4⟩
+  · exact findResourcePath_regular fs v _ _ h1
+  · exact findResourcePath_regular fs v _ _ h4
+
+/-- the chosen candidate of `__call__`, whatever the configuration -/
+theorem staticView_chosen (fs : Fs) (v : View) (ae : Option (List Enc)) (slash : Bool) (segs : List Seg)
+    (p : Text) (h : (∃ e b, staticView fs v ae slash segs = .file p e b) ∨ staticView fs v ae slash segs = .isADirectory p) :
+    fs.isRegular p = true := by
+  unfold staticView at h
+  cases hn : resourceName fs v slash segs with
+  | notFound => simp [hn] at h
+  | redirect => simp [hn] at h
+  | name n =>
+    simp only [hn] at h
+    rw [findBestMatch_eq_find] at h
+    cases hf : (possibleFiles fs v n).find? (accepts ae) with
+    | none => simp [hf] at h
+    | some c =>
+      simp only [hf] at h
+      have hm : c ∈ candidates fs v n := (mem_sortBySize _ _ _).mp (List.mem_of_find?_eq_some hf)
+      have hreg := candidates_regular fs v n c hm
+      by_cases hd : fs.isDir c.path = true
+      · simp only [hd, if_true, reduceCtorEq, exists_false, Outcome.isADirectory.injEq, false_or] at h
+        exact h ▸ hreg
+      · simp only [hd, if_false, Outcome.file.injEq, reduceCtorEq, or_false] at h
+        obtain ⟨_, _, e1, _, _⟩ := h
+        exact e1 ▸ hreg
+
+theorem staticView_file_regular (fs : Fs) (v : View) (ae : Option (List Enc)) (slash : Bool) (segs : List Seg)
+    (p : Text) (e : Option Enc) (b : Bool) (h : staticView fs v ae slash segs = .file p e b) : fs.isRegular p = true :=
+  staticView_chosen fs v ae slash segs p (.inl ⟨e, b, h⟩)
+
+theorem staticView_not_isADirectory (fs : Fs) (v : View) (ae : Option (List Enc)) (slash : Bool) (segs : List Seg)
+    (p : Text) (h : staticView fs v ae slash segs = .isADirectory p) : False := by
+  have hreg := staticView_chosen fs v ae slash segs p (.inr h)
+  -- the model only answers `isADirectory p` when `fs.isDir p`
+  have hdir : fs.isDir p = true := by
+    unfold staticView at h
+    cases hn : resourceName fs v slash segs with
+    | notFound => simp [hn] at h
+    | redirect => simp [hn] at h
+    | name n =>
+      simp only [hn] at h
+      cases hf : findBestMatch ae (possibleFiles fs v n) with
+      | none => simp [hf] at h
+      | some c =>
+        simp only [hf] at h
+        by_cases hd : fs.isDir c.path = true
+        · simp only [hd, if_true, Outcome.isADirectory.injEq] at h
+          exact h ▸ hd
+        · simp [hd] at h
+  simp [Fs.isRegular, hdir] at hreg
 
 end Pyr.Static
